@@ -2659,6 +2659,10 @@ task update from user %d for task from user %d failed: permission denied",
 	} else if (UNLIKELY(t->strm == NULL)) {
 		ECHS_ERR_LOG("submitted ical object is not a task");
 		return -1;
+	} else if (UNLIKELY(!t->oid)) {
+		/* nothing to file him under */
+		ECHS_ERR_LOG("submitted task has no (usable) uid");
+		return -1;
 	} else if ((res = get_task(t->oid)) != NULL &&
 		   !echs_task_owned_by_p(res->t, oc.u)) {
 		/* we've caught him, call the police!!! */
